@@ -19,14 +19,14 @@ theorem upd_apply {α : Type} (f : Nat → α) (i j : Nat) (a : α) : upd f i a 
 
 /-- what must hold of a connection depending on the goroutine that owns it; `clean` = nothing
     is owed on the connection, no I/O on it ever failed, no exchange owns it -/
-def WOK (k : Conn) (dirty : Bool) (owner : Option Nat) (clean : Prop) (inAll : Prop) (tclosed : Bool) :
-    Option Worker → Prop
+def WOK (k : Conn) (dirty : Bool) (owner : Option Nat) (wid : Nat) (acc : Nat → List Nat) (clean : Prop)
+    (inAll : Prop) (tclosed : Bool) : Option Worker → Prop
   | none => True
   | some (.fresh _) => clean ∧ k.serving = false ∧ k.closed = false ∧ k.netClosed = false ∧ ¬ inAll
   | some (.hold _) => clean ∧ k.serving = true ∧ (k.netClosed = true → tclosed = true) ∧ inAll
   | some (.write e _) => k.pending = [] ∧ k.serving = true ∧ dirty = false ∧ owner = some e
-  | some (.read e _) => k.pending = [e] ∧ k.serving = true ∧ dirty = false ∧ owner = some e
-  | some (.post e _ (.ok q)) => q = e ∧ clean ∧ k.serving = true
+  | some (.read e _ qid) => k.pending = [e] ∧ k.serving = true ∧ dirty = false ∧ owner = some e ∧ wid = qid
+  | some (.post e _ (.ok q)) => q ∈ acc e ∧ clean ∧ k.serving = true
   | some (.post _ _ .err) => True
   | some (.relA true) => clean ∧ k.serving = true
   | some (.relA false) => True
@@ -35,17 +35,18 @@ def WOK (k : Conn) (dirty : Bool) (owner : Option Nat) (clean : Prop) (inAll : P
 
 /-- the invariant of one connection, as a predicate of exactly the parts of the state and of the
     monitor it depends on -/
-def COK (k : Conn) (out : List Nat) (dirty mclosed : Bool) (owner : Option Nat) (ab : Bool)
-    (inIdle inAll : Prop) (tclosed : Bool) (alloc : Prop) : Prop :=
+def COK (k : Conn) (out : List Nat) (dirty mclosed : Bool) (owner : Option Nat) (ab : Bool) (wid : Nat)
+    (acc : Nat → List Nat) (inIdle inAll : Prop) (tclosed : Bool) (alloc : Prop) : Prop :=
   out = k.pending ∧ mclosed = k.netClosed ∧
   k.pending.length ≤ 1 ∧ (k.pending ≠ [] → k.serving = true) ∧
   (inIdle → k.worker = none ∧ k.serving = false ∧ (k.pending = [] ∧ k.halfRead = false ∧ dirty = false ∧ owner = none ∧ ab = false)) ∧
-  WOK k dirty owner (k.pending = [] ∧ k.halfRead = false ∧ dirty = false ∧ owner = none ∧ ab = false) inAll tclosed k.worker ∧
+  WOK k dirty owner wid acc (k.pending = [] ∧ k.halfRead = false ∧ dirty = false ∧ owner = none ∧ ab = false) inAll tclosed k.worker ∧
   (¬ alloc → k.worker = none ∧ out = [] ∧ ¬ inIdle ∧ ¬ inAll ∧ dirty = false ∧ owner = none ∧ ab = false ∧ mclosed = false) ∧
   (inAll → alloc)
 
 def ConnOK (s : State) (m : Mon) (c : Nat) : Prop :=
-  COK (s.conn c) (m.out c) (m.dirty c) (m.closed c) (m.owner c) (m.ab c) (c ∈ s.idle) (c ∈ s.all) s.tclosed
+  COK (s.conn c) (m.out c) (m.dirty c) (m.closed c) (m.owner c) (m.ab c) (m.wid c) m.acc (c ∈ s.idle) (c ∈ s.all)
+    s.tclosed
     (c < s.nconn)
 
 structure Inv (s : State) : Prop where
@@ -53,19 +54,30 @@ structure Inv (s : State) : Prop where
   ok : (mon s.hist).ok = true
   tcl : (mon s.hist).tclosed = s.tclosed
   conn : ∀ c, ConnOK s (mon s.hist) c
-  chan : ∀ e a q, s.chan e a = some (.ok q) → q = e
+  chan : ∀ e a q, s.chan e a = some (.ok q) → q ∈ (mon s.hist).acc e
 
 theorem inv_init : Inv State.init := by
   refine ⟨rfl, rfl, rfl, fun c => ?_, ?_⟩
   · simp [ConnOK, COK, WOK, State.init, Conn.fresh, mon, Mon.init]
   · simp [State.init]
 
+variable {adv : Bool}
+
 attribute [local simp] State.setConn State.setCaller State.emit State.finish State.spawn monStep
 
-theorem core_start (h : Inv s) (e : Nat) : Inv (stepCore s (.start e)) := by
-  simp only [stepCore, stepCoreG]
+/-- the result channels did not change and the monitor's `acc` did not shrink -/
+macro "chan_same" h:ident : tactic =>
+  `(tactic| first
+      | exact Inv.chan $h
+      | (intro e a q hq
+         have hch := Inv.chan $h e a q hq
+         simp at hch ⊢
+         first | exact hch | grind))
+
+theorem core_start (h : Inv s) (e : Nat) : Inv (stepCoreG false adv s (.start e)) := by
+  simp only [stepCoreG]
   split
-  · exact ⟨h.fault, h.ok, h.tcl, h.conn, h.chan⟩
+  · exact ⟨h.fault, h.ok, h.tcl, h.conn, by chan_same h⟩
   · exact h
 
 /-- the common shape: only connection `c` (and its monitor entries) changed -/
@@ -73,101 +85,6 @@ macro "conn_cases" h:ident c:ident : tactic =>
   `(tactic| (intro c'; by_cases hc : c' = $c
              · subst hc; simp [ConnOK, COK, WOK] at *; grind
              · simpa [ConnOK, hc] using Inv.conn $h c'))
-
-theorem core_cancel (h : Inv s) (e : Nat) : Inv (stepCore s (.cancel e)) := by
-  simp only [stepCore, stepCoreG]
-  exact ⟨h.fault, h.ok, h.tcl, h.conn, h.chan⟩
-
-theorem core_workerWrite (h : Inv s) (c : Nat) (fail : Bool) : Inv (stepCore s (.workerWrite c fail)) := by
-  simp only [stepCore, stepCoreG]
-  split
-  · rename_i e a hw
-    have hcc := h.conn c
-    simp only [ConnOK, COK, hw, WOK] at hcc
-    split
-    · refine ⟨h.fault, ?_, ?_, ?_, h.chan⟩
-      · simp [h.ok]
-      · simp [h.tcl]
-      · conn_cases h c
-    · refine ⟨h.fault, ?_, ?_, ?_, h.chan⟩
-      · simp [h.ok, hcc]
-      · simp [h.tcl]
-      · conn_cases h c
-  · exact h
-
-theorem core_workerReadErr (h : Inv s) (c : Nat) : Inv (stepCore s (.workerReadErr c)) := by
-  simp only [stepCore, stepCoreG]
-  split
-  · rename_i e a hw
-    have hcc := h.conn c
-    simp only [ConnOK, COK, hw, WOK] at hcc
-    refine ⟨h.fault, ?_, ?_, ?_, h.chan⟩
-    · simp [h.ok]
-    · simp [h.tcl]
-    · conn_cases h c
-  · exact h
-
-theorem core_workerReadOk (h : Inv s) (c : Nat) : Inv (stepCore s (.workerReadOk c)) := by
-  simp only [stepCore, stepCoreG]
-  split
-  · rename_i e a hw
-    have hcc := h.conn c
-    simp only [ConnOK, COK, hw, WOK] at hcc
-    split
-    · exact h
-    · split
-      · rename_i q ps g gs hp ha
-        split
-        · refine ⟨h.fault, ?_, ?_, ?_, h.chan⟩
-          · simp [h.ok]
-          · simp [h.tcl]
-          · conn_cases h c
-        · refine ⟨h.fault, ?_, ?_, ?_, h.chan⟩
-          · simp [h.ok]
-          · simp [h.tcl]
-          · conn_cases h c
-      · exact h
-  · exact h
-
-theorem core_workerPost (h : Inv s) (c : Nat) : Inv (stepCore s (.workerPost c)) := by
-  simp only [stepCore, stepCoreG]
-  split
-  · rename_i e a r hw
-    have hcc := h.conn c
-    simp only [ConnOK, COK, hw] at hcc
-    refine ⟨h.fault, ?_, ?_, ?_, ?_⟩
-    · simp [h.ok]
-    · simp [h.tcl]
-    · cases r <;> simp only [WOK] at hcc <;> conn_cases h c
-    · intro e' a' q hq
-      by_cases he : e' = e
-      · by_cases ha : a' = a
-        · subst he ha
-          cases r
-          · simp only [WOK] at hcc; simp at hq; grind
-          · simp at hq
-        · subst he
-          simp [ha] at hq
-          exact h.chan _ _ _ hq
-      · simp [he] at hq
-        exact h.chan _ _ _ hq
-  · exact h
-
-theorem core_srvReply (h : Inv s) (c : Nat) (g : Bool) : Inv (stepCore s (.srvReply c g)) := by
-  simp only [stepCore, stepCoreG]
-  split
-  · refine ⟨h.fault, ?_, ?_, ?_, h.chan⟩
-    · simp [h.ok]
-    · simp [h.tcl]
-    · intro c'
-      by_cases hc : c' = c
-      · subst hc; have := h.conn c'; simp [ConnOK, COK] at *
-        rcases hw : (s.conn c').worker with _ | w
-        · simp [hw, WOK] at *; grind
-        · rcases w with _ | _ | _ | _ | ⟨_, _, r⟩ | b | b
-          all_goals first | (cases r <;> simp [hw, WOK] at * <;> grind) | (cases b <;> simp [hw, WOK] at * <;> grind) | (simp [hw, WOK] at *; grind)
-      · simpa [ConnOK, hc] using h.conn c'
-  · exact h
 
 /-- a change of connection `c` that COK does not look at -/
 theorem connOK_irrelevant (h : Inv s) (c : Nat) (k : Conn)
@@ -190,42 +107,9 @@ theorem connOK_irrelevant (h : Inv s) (c : Nat) (k : Conn)
       all_goals first | (cases r <;> simp only [WOK] at hw ⊢ <;> grind) | (cases b <;> simp only [WOK] at hw ⊢ <;> grind) | (simp only [WOK] at hw ⊢; grind)
   · simpa [ConnOK, hc] using h.conn c'
 
-theorem core_srvAbort (h : Inv s) (c : Nat) : Inv (stepCore s (.srvAbort c)) := by
-  simp only [stepCore, stepCoreG]
-  split
-  · exact ⟨h.fault, h.ok, h.tcl, connOK_irrelevant h c _ rfl rfl rfl rfl rfl rfl, h.chan⟩
-  · exact h
-
-theorem core_workerRelA (h : Inv s) (c : Nat) : Inv (stepCore s (.workerRelA c)) := by
-  simp only [stepCore, stepCoreG]
-  split
-  · rename_i ok hw
-    have hcc := h.conn c
-    simp only [ConnOK, COK, hw] at hcc
-    cases ok
-    · simp only [WOK] at hcc
-      simp only [State.rcClose, State.netClose, Bool.false_eq_true, if_false]
-      split
-      · refine ⟨h.fault, h.ok, h.tcl, ?_, h.chan⟩
-        conn_cases h c
-      · split
-        · refine ⟨h.fault, h.ok, h.tcl, ?_, h.chan⟩
-          conn_cases h c
-        · refine ⟨h.fault, ?_, ?_, ?_, h.chan⟩
-          · simp [h.ok]
-          · simp [h.tcl]
-          · conn_cases h c
-    · simp only [WOK] at hcc
-      simp only [if_true]
-      split
-      · simp_all
-      · refine ⟨h.fault, h.ok, h.tcl, ?_, h.chan⟩
-        conn_cases h c
-  · exact h
-
-theorem COK_ab {k : Conn} {out dirty mcl owner ab inIdle inAll tcl alloc}
-    (h : COK k out dirty mcl owner ab inIdle inAll tcl alloc) (e : Nat) :
-    COK k out dirty mcl owner (ab || (owner == some e)) inIdle inAll tcl alloc := by
+theorem COK_ab {k : Conn} {out dirty mcl owner ab wid acc inIdle inAll tcl alloc}
+    (h : COK k out dirty mcl owner ab wid acc inIdle inAll tcl alloc) (e : Nat) :
+    COK k out dirty mcl owner (ab || (owner == some e)) wid acc inIdle inAll tcl alloc := by
   simp only [COK] at *
   refine ⟨h.1, h.2.1, h.2.2.1, h.2.2.2.1, ?_, ?_, ?_, h.2.2.2.2.2.2.2⟩
   · intro hi; have := h.2.2.2.2.1 hi; simp_all
@@ -237,45 +121,224 @@ theorem COK_ab {k : Conn} {out dirty mcl owner ab inIdle inAll tcl alloc}
       all_goals first | (cases r <;> simp only [WOK] at hw ⊢ <;> simp_all) | (cases b <;> simp only [WOK] at hw ⊢ <;> simp_all) | (simp only [WOK] at hw ⊢; simp_all)
   · intro hi; have := h.2.2.2.2.2.2.1 hi; simp_all
 
+/-- the invariant of a connection survives when the monitor's `acc` grows -/
+theorem COK_acc_mono {k : Conn} {out dirty mcl owner ab wid} {acc acc' : Nat → List Nat} {inIdle inAll tcl alloc}
+    (h : COK k out dirty mcl owner ab wid acc inIdle inAll tcl alloc) (hm : ∀ e q, q ∈ acc e → q ∈ acc' e) :
+    COK k out dirty mcl owner ab wid acc' inIdle inAll tcl alloc := by
+  simp only [COK] at *
+  refine ⟨h.1, h.2.1, h.2.2.1, h.2.2.2.1, h.2.2.2.2.1, ?_, h.2.2.2.2.2.2.1, h.2.2.2.2.2.2.2⟩
+  have hw := h.2.2.2.2.2.1
+  generalize k.worker = w at *
+  rcases w with _ | w
+  · trivial
+  · rcases w with _ | _ | _ | _ | ⟨_, _, r⟩ | b | b
+    all_goals first
+      | (cases r <;> simp only [WOK] at hw ⊢ <;> first | exact hw | exact ⟨hm _ _ hw.1, hw.2⟩)
+      | (cases b <;> simp only [WOK] at hw ⊢ <;> exact hw)
+      | (simp only [WOK] at hw ⊢; exact hw)
+
+theorem core_cancel (h : Inv s) (e : Nat) : Inv (stepCoreG false adv s (.cancel e)) := by
+  simp only [stepCoreG]
+  exact ⟨h.fault, h.ok, h.tcl, h.conn, by chan_same h⟩
+
+theorem core_workerWrite (h : Inv s) (c : Nat) (fail : Bool) : Inv (stepCoreG false adv s (.workerWrite c fail)) := by
+  simp only [stepCoreG]
+  split
+  · rename_i e a hw
+    have hcc := h.conn c
+    simp only [ConnOK, COK, hw, WOK] at hcc
+    split
+    · refine ⟨h.fault, ?_, ?_, ?_, by chan_same h⟩
+      · simp [h.ok]
+      · simp [h.tcl]
+      · conn_cases h c
+    · refine ⟨h.fault, ?_, ?_, ?_, by chan_same h⟩
+      · simp [h.ok, hcc]
+      · simp [h.tcl]
+      · conn_cases h c
+  · exact h
+
+theorem core_workerReadErr (h : Inv s) (c : Nat) : Inv (stepCoreG false adv s (.workerReadErr c)) := by
+  simp only [stepCoreG]
+  split
+  · rename_i e a hw
+    have hcc := h.conn c
+    simp only [ConnOK, COK, hw, WOK] at hcc
+    refine ⟨h.fault, ?_, ?_, ?_, by chan_same h⟩
+    · simp [h.ok]
+    · simp [h.tcl]
+    · conn_cases h c
+  · exact h
+
+theorem core_workerReadOk (h : Inv s) (c : Nat) : Inv (stepCoreG false adv s (.workerReadOk c)) := by
+  simp only [stepCoreG]
+  split
+  · rename_i e a qid hw
+    have hcc := h.conn c
+    simp only [ConnOK, COK, hw, WOK] at hcc
+    have hwid : (mon s.hist).wid c = qid := hcc.2.2.2.2.2.1.2.2.2.2
+    have hown : (mon s.hist).owner c = some e := hcc.2.2.2.2.2.1.2.2.2.1
+    split
+    · exact h
+    · split
+      · rename_i f fs hin
+        split
+        · -- a frame that does not decode
+          refine ⟨h.fault, ?_, ?_, ?_, by chan_same h⟩
+          · simp [h.ok]
+          · simp [h.tcl]
+          · conn_cases h c
+        · split
+          · -- the reply with the id of the query: accepted
+            rename_i hid
+            have hacc : ∀ e' q, q ∈ (mon s.hist).acc e' →
+                q ∈ upd (mon s.hist).acc e (f.q :: (mon s.hist).acc e) e' := by
+              intro e' q hq
+              by_cases he : e' = e
+              · subst he; simp [hq]
+              · simpa [he] using hq
+            refine ⟨h.fault, ?_, ?_, ?_, ?_⟩
+            · simp [h.ok, hwid, hid, hown]
+            · simp [h.tcl, hwid, hid, hown]
+            · intro c'
+              by_cases hc : c' = c
+              · subst hc; simp [ConnOK, COK, WOK, hwid, hid, hown] at *; grind
+              · have := COK_acc_mono (h.conn c') hacc
+                simpa [ConnOK, hc, hwid, hid, hown] using this
+            · intro e' a' q hq
+              have := hacc e' q (h.chan e' a' q hq)
+              simpa [hwid, hid, hown] using this
+          · -- a frame with another id: errUnexpectedRespID
+            rename_i hid
+            have hne : ¬ f.id = (mon s.hist).wid c := by rw [hwid]; exact hid
+            refine ⟨h.fault, ?_, ?_, ?_, ?_⟩
+            · simp [h.ok, hne]
+            · simp [h.tcl, hne]
+            · intro c'
+              by_cases hc : c' = c
+              · subst hc; simp [ConnOK, COK, WOK, hne] at *; grind
+              · simpa [ConnOK, hc, hne] using h.conn c'
+            · intro e' a' q hq
+              simpa [hne] using h.chan e' a' q hq
+      · exact h
+  · exact h
+
+theorem core_workerPost (h : Inv s) (c : Nat) : Inv (stepCoreG false adv s (.workerPost c)) := by
+  simp only [stepCoreG]
+  split
+  · rename_i e a r hw
+    have hcc := h.conn c
+    simp only [ConnOK, COK, hw] at hcc
+    refine ⟨h.fault, ?_, ?_, ?_, ?_⟩
+    · simp [h.ok]
+    · simp [h.tcl]
+    · cases r <;> simp only [WOK] at hcc <;> conn_cases h c
+    · intro e' a' q hq
+      by_cases he : e' = e
+      · by_cases ha : a' = a
+        · subst he ha
+          cases r
+          · simp only [WOK] at hcc; simp at hq; subst hq; simpa using hcc.2.2.2.2.2.1.1
+          · simp at hq
+        · subst he
+          simp [ha] at hq
+          simpa using h.chan _ _ _ hq
+      · simp [he] at hq
+        simpa using h.chan _ _ _ hq
+  · exact h
+
+theorem core_srvReply (h : Inv s) (c : Nat) (g : Bool) : Inv (stepCoreG false adv s (.srvReply c g)) := by
+  simp only [stepCoreG]
+  split
+  · split
+    · exact ⟨h.fault, h.ok, h.tcl, connOK_irrelevant h c _ rfl rfl rfl rfl rfl rfl, h.chan⟩
+    · exact h
+  · exact h
+
+theorem core_srvDup (h : Inv s) (c n : Nat) : Inv (stepCoreG false adv s (.srvDup c n)) := by
+  simp only [stepCoreG]
+  split
+  · split
+    · exact ⟨h.fault, h.ok, h.tcl, connOK_irrelevant h c _ rfl rfl rfl rfl rfl rfl, h.chan⟩
+    · exact h
+  · exact h
+
+theorem core_srvStray (h : Inv s) (c : Nat) (f : Frame) : Inv (stepCoreG false adv s (.srvStray c f)) := by
+  simp only [stepCoreG]
+  split
+  · exact ⟨h.fault, h.ok, h.tcl, connOK_irrelevant h c _ rfl rfl rfl rfl rfl rfl, h.chan⟩
+  · exact h
+
+theorem core_srvAbort (h : Inv s) (c : Nat) : Inv (stepCoreG false adv s (.srvAbort c)) := by
+  simp only [stepCoreG]
+  split
+  · exact ⟨h.fault, h.ok, h.tcl, connOK_irrelevant h c _ rfl rfl rfl rfl rfl rfl, by chan_same h⟩
+  · exact h
+
+theorem core_workerRelA (h : Inv s) (c : Nat) : Inv (stepCoreG false adv s (.workerRelA c)) := by
+  simp only [stepCoreG]
+  split
+  · rename_i ok hw
+    have hcc := h.conn c
+    simp only [ConnOK, COK, hw] at hcc
+    cases ok
+    · simp only [WOK] at hcc
+      simp only [State.rcClose, State.netClose, Bool.false_eq_true, if_false]
+      split
+      · refine ⟨h.fault, h.ok, h.tcl, ?_, by chan_same h⟩
+        conn_cases h c
+      · split
+        · refine ⟨h.fault, h.ok, h.tcl, ?_, by chan_same h⟩
+          conn_cases h c
+        · refine ⟨h.fault, ?_, ?_, ?_, by chan_same h⟩
+          · simp [h.ok]
+          · simp [h.tcl]
+          · conn_cases h c
+    · simp only [WOK] at hcc
+      simp only [if_true]
+      split
+      · simp_all
+      · refine ⟨h.fault, h.ok, h.tcl, ?_, by chan_same h⟩
+        conn_cases h c
+  · exact h
+
 /-- returning an error to the caller changes nothing the invariant looks at -/
 theorem finish_err (h : Inv s) (e : Nat) : Inv (s.finish e .err) := by
-  refine ⟨h.fault, ?_, ?_, fun c' => ?_, h.chan⟩
+  refine ⟨h.fault, ?_, ?_, fun c' => ?_, by chan_same h⟩
   · simp [h.ok]
   · simp [h.tcl]
   · simpa [ConnOK] using h.conn c'
 
 theorem finish_ctx (h : Inv s) (e : Nat) : Inv (s.finish e .ctx) := by
-  refine ⟨h.fault, ?_, ?_, fun c' => ?_, h.chan⟩
+  refine ⟨h.fault, ?_, ?_, fun c' => ?_, by chan_same h⟩
   · simp [h.ok]
   · simp [h.tcl]
   · have := COK_ab (h.conn c') e
     simpa [ConnOK] using this
 
-theorem finish_ok (h : Inv s) (e : Nat) : Inv (s.finish e (.ok e)) := by
-  refine ⟨h.fault, ?_, ?_, fun c' => ?_, h.chan⟩
-  · simp [h.ok]
+theorem finish_ok (h : Inv s) (e q : Nat) (hq : q ∈ (mon s.hist).acc e) : Inv (s.finish e (.ok q)) := by
+  refine ⟨h.fault, ?_, ?_, fun c' => ?_, by chan_same h⟩
+  · simp [h.ok, hq]
   · simp [h.tcl]
   · simpa [ConnOK] using h.conn c'
 
 theorem inv_setCaller (h : Inv s) (e : Nat) (k : Caller) : Inv (s.setCaller e k) :=
-  ⟨h.fault, h.ok, h.tcl, h.conn, h.chan⟩
+  ⟨h.fault, h.ok, h.tcl, h.conn, by chan_same h⟩
 
-theorem core_recvRes (h : Inv s) (e : Nat) : Inv (stepCore s (.recvRes e)) := by
-  simp only [stepCore, stepCoreG]
+theorem core_recvRes (h : Inv s) (e : Nat) : Inv (stepCoreG false adv s (.recvRes e)) := by
+  simp only [stepCoreG]
   split
   · split
     · rename_i q hq
-      have := h.chan _ _ _ hq
-      subst this
-      exact finish_ok h _
+      exact finish_ok h _ _ (h.chan _ _ _ hq)
     · split
       · exact inv_setCaller h _ _
       · exact finish_err h _
     · exact h
   · exact h
 
-theorem core_giveUp (h : Inv s) (e : Nat) : Inv (stepCore s (.giveUp e)) := by
-  simp only [stepCore, stepCoreG]
+theorem core_giveUp (h : Inv s) (e : Nat) : Inv (stepCoreG false adv s (.giveUp e)) := by
+  simp only [stepCoreG]
   split
   · split
     · exact finish_ctx h _
@@ -283,16 +346,16 @@ theorem core_giveUp (h : Inv s) (e : Nat) : Inv (stepCore s (.giveUp e)) := by
     · exact h
   · exact h
 
-theorem core_dialFail (h : Inv s) (e : Nat) (b : Bool) : Inv (stepCore s (.dialFail e b)) := by
-  simp only [stepCore, stepCoreG]
+theorem core_dialFail (h : Inv s) (e : Nat) (b : Bool) : Inv (stepCoreG false adv s (.dialFail e b)) := by
+  simp only [stepCoreG]
   split
   · split
     · exact finish_err (inv_setCaller h _ _) _
     · exact inv_setCaller h _ _
   · exact h
 
-theorem core_idleTimer (h : Inv s) (c : Nat) : Inv (stepCore s (.idleTimer c)) := by
-  simp only [stepCore, stepCoreG]
+theorem core_idleTimer (h : Inv s) (c : Nat) : Inv (stepCoreG false adv s (.idleTimer c)) := by
+  simp only [stepCoreG]
   split
   · by_cases hf : beforeExitIdle (s.conn c).worker = true
     · simp only [hf, Bool.not_false, Bool.and_self, if_true]
@@ -305,7 +368,7 @@ theorem core_idleTimer (h : Inv s) (c : Nat) : Inv (stepCore s (.idleTimer c)) :
         simp only [ConnOK, COK] at hcc
         simp only [State.netClose]
         split
-        · refine ⟨h.fault, h.ok, h.tcl, ?_, h.chan⟩
+        · refine ⟨h.fault, h.ok, h.tcl, ?_, by chan_same h⟩
           intro c'
           by_cases hc : c' = c
           · subst hc
@@ -314,7 +377,7 @@ theorem core_idleTimer (h : Inv s) (c : Nat) : Inv (stepCore s (.idleTimer c)) :
             · rcases w with _ | _ | _ | _ | ⟨_, _, r⟩ | b | b
               all_goals first | (cases r <;> simp [ConnOK, COK, WOK, hw] at * <;> grind) | (cases b <;> simp [ConnOK, COK, WOK, hw] at * <;> grind) | (simp [ConnOK, COK, WOK, hw] at * <;> grind)
           · simpa [ConnOK, hc] using h.conn c'
-        · refine ⟨h.fault, ?_, ?_, ?_, h.chan⟩
+        · refine ⟨h.fault, ?_, ?_, ?_, by chan_same h⟩
           · simp [h.ok]
           · simp [h.tcl]
           · intro c'
@@ -328,8 +391,8 @@ theorem core_idleTimer (h : Inv s) (c : Nat) : Inv (stepCore s (.idleTimer c)) :
       · exact h
   · exact h
 
-theorem core_workerRelB (h : Inv s) (c : Nat) : Inv (stepCore s (.workerRelB c)) := by
-  simp only [stepCore, stepCoreG]
+theorem core_workerRelB (h : Inv s) (c : Nat) : Inv (stepCoreG false adv s (.workerRelB c)) := by
+  simp only [stepCoreG]
   split
   · rename_i ok hw
     have hcc := h.conn c
@@ -338,10 +401,10 @@ theorem core_workerRelB (h : Inv s) (c : Nat) : Inv (stepCore s (.workerRelB c))
     · simp only [WOK] at hcc
       split
       · simp only [Bool.false_eq_true, if_false]
-        refine ⟨h.fault, h.ok, h.tcl, ?_, h.chan⟩
+        refine ⟨h.fault, h.ok, h.tcl, ?_, by chan_same h⟩
         conn_cases h c
       · simp only [Bool.false_eq_true, if_false]
-        refine ⟨h.fault, h.ok, h.tcl, ?_, h.chan⟩
+        refine ⟨h.fault, h.ok, h.tcl, ?_, by chan_same h⟩
         intro c'
         by_cases hc : c' = c
         · subst hc; simp [ConnOK, COK, WOK] at *; grind
@@ -350,17 +413,17 @@ theorem core_workerRelB (h : Inv s) (c : Nat) : Inv (stepCore s (.workerRelB c))
       split
       · simp only [if_true, State.rcClose, State.netClose]
         split
-        · refine ⟨h.fault, h.ok, h.tcl, ?_, h.chan⟩
+        · refine ⟨h.fault, h.ok, h.tcl, ?_, by chan_same h⟩
           conn_cases h c
         · split
-          · refine ⟨h.fault, h.ok, h.tcl, ?_, h.chan⟩
+          · refine ⟨h.fault, h.ok, h.tcl, ?_, by chan_same h⟩
             conn_cases h c
-          · refine ⟨h.fault, ?_, ?_, ?_, h.chan⟩
+          · refine ⟨h.fault, ?_, ?_, ?_, by chan_same h⟩
             · simp [h.ok]
             · simp [h.tcl]
             · conn_cases h c
       · simp only [if_true]
-        refine ⟨h.fault, h.ok, h.tcl, ?_, h.chan⟩
+        refine ⟨h.fault, h.ok, h.tcl, ?_, by chan_same h⟩
         intro c'
         by_cases hc : c' = c
         · subst hc; simp [ConnOK, COK, WOK] at *; grind
@@ -370,30 +433,30 @@ theorem core_workerRelB (h : Inv s) (c : Nat) : Inv (stepCore s (.workerRelB c))
           · simpa [ConnOK, hc, hi] using this
   · exact h
 
-theorem core_dialDeliver (h : Inv s) (c : Nat) (b : Bool) : Inv (stepCore s (.dialDeliver c b)) := by
-  simp only [stepCore, stepCoreG]
+theorem core_dialDeliver (h : Inv s) (c : Nat) (b : Bool) : Inv (stepCoreG false adv s (.dialDeliver c b)) := by
+  simp only [stepCoreG]
   split
   · rename_i e hw
     have hcc := h.conn c
     simp only [ConnOK, COK, hw, WOK] at hcc
     have htc := h.tcl
     split
-    · refine ⟨h.fault, ?_, ?_, ?_, h.chan⟩
+    · refine ⟨h.fault, ?_, ?_, ?_, by chan_same h⟩
       · simp [h.ok]; grind
       · simp [h.tcl]
       · conn_cases h c
-    · refine ⟨h.fault, h.ok, h.tcl, ?_, h.chan⟩
+    · refine ⟨h.fault, h.ok, h.tcl, ?_, by chan_same h⟩
       conn_cases h c
   · exact h
 
-theorem core_dialDone (h : Inv s) (e : Nat) (b : Bool) : Inv (stepCore s (.dialDone e b)) := by
-  simp only [stepCore, stepCoreG]
+theorem core_dialDone (h : Inv s) (e : Nat) (b : Bool) : Inv (stepCoreG false adv s (.dialDone e b)) := by
+  simp only [stepCoreG]
   split
   · split
     · have hcc := h.conn s.nconn
       simp only [ConnOK, COK] at hcc
       have hp := hcc.2.2.2.2.2.2.1 (Nat.lt_irrefl _)
-      refine ⟨h.fault, ?_, ?_, ?_, h.chan⟩
+      refine ⟨h.fault, ?_, ?_, ?_, by chan_same h⟩
       · simp [h.ok]
       · simp [h.tcl]
       · intro c'
@@ -406,8 +469,8 @@ theorem core_dialDone (h : Inv s) (e : Nat) (b : Bool) : Inv (stepCore s (.dialD
     · exact inv_setCaller h _ _
   · exact h
 
-theorem core_dialExit (h : Inv s) (c : Nat) : Inv (stepCore s (.dialExit c)) := by
-  simp only [stepCore, stepCoreG]
+theorem core_dialExit (h : Inv s) (c : Nat) : Inv (stepCoreG false adv s (.dialExit c)) := by
+  simp only [stepCoreG]
   split
   · rename_i e hw
     have hcc := h.conn c
@@ -419,34 +482,34 @@ theorem core_dialExit (h : Inv s) (c : Nat) : Inv (stepCore s (.dialExit c)) := 
     split
     · simp only [State.rcClose, State.netClose, State.setConn, State.setCaller, State.emit, upd_same, hcl, hnc,
         Bool.false_eq_true, if_false]
-      refine ⟨h.fault, ?_, ?_, ?_, h.chan⟩
+      refine ⟨h.fault, ?_, ?_, ?_, by chan_same h⟩
       · simp [h.ok]
       · simp [h.tcl]
       · intro c'
         by_cases hc : c' = c
         · subst hc; simp [ConnOK, COK, WOK] at *; grind
         · simpa [ConnOK, hc] using h.conn c'
-    · refine ⟨h.fault, h.ok, h.tcl, ?_, h.chan⟩
+    · refine ⟨h.fault, h.ok, h.tcl, ?_, by chan_same h⟩
       intro c'
       by_cases hc : c' = c
       · subst hc; simp [ConnOK, COK, WOK] at *; grind
       · simpa [ConnOK, hc] using h.conn c'
   · exact h
 
-theorem core_workerReadPart (h : Inv s) (c : Nat) : Inv (stepCore s (.workerReadPart c)) := by
-  simp only [stepCore, stepCoreG]
+theorem core_workerReadPart (h : Inv s) (c : Nat) : Inv (stepCoreG false adv s (.workerReadPart c)) := by
+  simp only [stepCoreG]
   split
   · rename_i e a hw
     have hcc := h.conn c
     simp only [ConnOK, COK, hw, WOK] at hcc
     split
     · exact h
-    · refine ⟨h.fault, h.ok, h.tcl, ?_, h.chan⟩
+    · refine ⟨h.fault, h.ok, h.tcl, ?_, by chan_same h⟩
       conn_cases h c
   · exact h
 
-theorem core_getIdle (h : Inv s) (e : Nat) (pick : Option Nat) : Inv (stepCore s (.getIdle e pick)) := by
-  simp only [stepCore, stepCoreG]
+theorem core_getIdle (h : Inv s) (e : Nat) (pick : Option Nat) : Inv (stepCoreG false adv s (.getIdle e pick)) := by
+  simp only [stepCoreG]
   split
   · split
     · exact inv_setCaller h _ _
@@ -466,7 +529,7 @@ theorem core_getIdle (h : Inv s) (e : Nat) (pick : Option Nat) : Inv (stepCore s
             skip
             split
             · -- closed: forget
-              refine ⟨h.fault, h.ok, h.tcl, ?_, h.chan⟩
+              refine ⟨h.fault, h.ok, h.tcl, ?_, by chan_same h⟩
               intro c'
               by_cases hc : c' = c
               · subst hc; simp [ConnOK, COK, WOK, hi] at *; grind
@@ -474,14 +537,14 @@ theorem core_getIdle (h : Inv s) (e : Nat) (pick : Option Nat) : Inv (stepCore s
             · split
               · simp_all
               · split
-                · refine ⟨h.fault, h.ok, h.tcl, ?_, h.chan⟩
+                · refine ⟨h.fault, h.ok, h.tcl, ?_, by chan_same h⟩
                   intro c'
                   by_cases hc : c' = c
                   · subst hc; simp [ConnOK, COK, WOK, hi] at *; grind
                   · simpa [ConnOK, hc] using h.conn c'
                 · split
                   · simp_all
-                  · refine ⟨h.fault, ?_, ?_, ?_, h.chan⟩
+                  · refine ⟨h.fault, ?_, ?_, ?_, by chan_same h⟩
                     · simp [h.ok]; grind
                     · simp [h.tcl]
                     · intro c'
@@ -498,31 +561,35 @@ theorem foldl_cl (l : List Nat) (m : Mon) :
     ((l.map Event.cl).foldl monStep m).owner = m.owner ∧
     ((l.map Event.cl).foldl monStep m).ab = m.ab ∧
     ((l.map Event.cl).foldl monStep m).tclosed = m.tclosed ∧
+    ((l.map Event.cl).foldl monStep m).wid = m.wid ∧
+    ((l.map Event.cl).foldl monStep m).acc = m.acc ∧
+    ((l.map Event.cl).foldl monStep m).own = m.own ∧
     ∀ c, ((l.map Event.cl).foldl monStep m).closed c = (m.closed c || decide (c ∈ l)) := by
   induction l generalizing m with
   | nil => simp
   | cons x xs ih =>
     have := ih (monStep m (.cl x))
     simp only [List.map_cons, List.foldl_cons]
-    refine ⟨this.1, this.2.1, this.2.2.1, this.2.2.2.1, this.2.2.2.2.1, this.2.2.2.2.2.1, fun c => ?_⟩
-    rw [this.2.2.2.2.2.2 c]
+    refine ⟨this.1, this.2.1, this.2.2.1, this.2.2.2.1, this.2.2.2.2.1, this.2.2.2.2.2.1, this.2.2.2.2.2.2.1,
+      this.2.2.2.2.2.2.2.1, this.2.2.2.2.2.2.2.2.1, fun c => ?_⟩
+    rw [this.2.2.2.2.2.2.2.2.2 c]
     by_cases hc : c = x
     · subst hc; simp
     · simp [hc]
 
-theorem core_tClose (h : Inv s) : Inv (stepCore s .tClose) := by
-  simp only [stepCore, stepCoreG]
+theorem core_tClose (h : Inv s) : Inv (stepCoreG false adv s .tClose) := by
+  simp only [stepCoreG]
   split
   · exact h
   · rename_i htc
     have F := foldl_cl (s.all.filter (fun c => !(s.conn c).netClosed)) (monStep (mon s.hist) .tclose)
-    refine ⟨h.fault, ?_, ?_, ?_, h.chan⟩
+    refine ⟨h.fault, ?_, ?_, ?_, ?_⟩
     · simp only [mon_append, List.foldl_cons]; rw [F.1]; simp [h.ok]
     · simp only [mon_append, List.foldl_cons]; rw [F.2.2.2.2.2.1]; simp
     · intro c'
       have := h.conn c'
       simp only [ConnOK, mon_append, List.foldl_cons]
-      rw [F.2.1, F.2.2.1, F.2.2.2.1, F.2.2.2.2.1, F.2.2.2.2.2.2 c']
+      rw [F.2.1, F.2.2.1, F.2.2.2.1, F.2.2.2.2.1, F.2.2.2.2.2.2.1, F.2.2.2.2.2.2.2.1, F.2.2.2.2.2.2.2.2.2 c']
       simp only [ConnOK, COK] at this
       simp only [COK, monStep]
       by_cases hin : c' ∈ s.all
@@ -534,6 +601,10 @@ theorem core_tClose (h : Inv s) : Inv (stepCore s .tClose) := by
         · simp [hin, hw, WOK] at * <;> grind
         · rcases w with _ | _ | _ | _ | ⟨_, _, r⟩ | b | b
           all_goals first | (cases r <;> simp [hin, hw, WOK] at * <;> grind) | (cases b <;> simp [hin, hw, WOK] at * <;> grind) | (simp [hin, hw, WOK] at * <;> grind)
+    · intro e a q hq
+      simp only [mon_append, List.foldl_cons]
+      rw [F.2.2.2.2.2.2.2.1]
+      simpa [monStep] using h.chan e a q hq
 
 /-- every step preserves the invariant -/
 theorem step_inv (h : Inv s) (a : Act) : Inv (step s a) := by
@@ -558,7 +629,44 @@ theorem step_inv (h : Inv s) (a : Act) : Inv (step s a) := by
   | idleTimer c => exact core_idleTimer h c
   | tClose => exact core_tClose h
   | srvReply c g => exact core_srvReply h c g
+  | srvDup c n => exact core_srvDup h c n
+  | srvStray c f => exact core_srvStray h c f
   | srvAbort c => exact core_srvAbort h c
+
+/-- … also against a server that sends arbitrary frames -/
+theorem stepAdv_inv (h : Inv s) (a : Act) : Inv (stepAdv s a) := by
+  simp only [stepAdv, h.fault, Option.isSome_none, Bool.false_eq_true, if_false]
+  cases a with
+  | start e => exact core_start h e
+  | cancel e => exact core_cancel h e
+  | getIdle e p => exact core_getIdle h e p
+  | recvRes e => exact core_recvRes h e
+  | giveUp e => exact core_giveUp h e
+  | dialDone e b => exact core_dialDone h e b
+  | dialExit c => exact core_dialExit h c
+  | dialDeliver c b => exact core_dialDeliver h c b
+  | dialFail e b => exact core_dialFail h e b
+  | workerWrite c b => exact core_workerWrite h c b
+  | workerReadPart c => exact core_workerReadPart h c
+  | workerReadOk c => exact core_workerReadOk h c
+  | workerReadErr c => exact core_workerReadErr h c
+  | workerPost c => exact core_workerPost h c
+  | workerRelA c => exact core_workerRelA h c
+  | workerRelB c => exact core_workerRelB h c
+  | idleTimer c => exact core_idleTimer h c
+  | tClose => exact core_tClose h
+  | srvReply c g => exact core_srvReply h c g
+  | srvDup c n => exact core_srvDup h c n
+  | srvStray c f => exact core_srvStray h c f
+  | srvAbort c => exact core_srvAbort h c
+
+theorem execAdv_inv (h : Inv s) (acts : List Act) : Inv (execAdv s acts) := by
+  induction acts generalizing s with
+  | nil => exact h
+  | cons a as ih => exact ih (stepAdv_inv h a)
+
+/-- the (safety) invariant holds in every state reachable against an arbitrary server -/
+theorem reachAdv_inv (acts : List Act) : Inv (execAdv State.init acts) := execAdv_inv inv_init acts
 
 theorem exec_inv (h : Inv s) (acts : List Act) : Inv (exec s acts) := by
   induction acts generalizing s with
